@@ -340,6 +340,10 @@ func runC10(c *eng.Ctx) {
 		c.Check(ok, "older segments are scanned from their end", p.Pos(fn.Pos()), "newReverseSegmentScannerFromEnd(r.segments[r.segIdx])", "the reverse reader does not enter older segments from their last entry")
 	}
 	c.Floor(4)
+	// ---- R14.6 end-of-log / not-found sentinels reach the readers' identity tests unwrapped
+	n := ruleSentinelIdentity(c, "R14.6", []string{"server.(*partition).newSubscribeLoop", cl + "(*commitLog).EarliestOffsetAfterTimestamp", cl + "(*commitLog).LatestOffsetBeforeTimestamp", cl + "(*ReverseReader).ReadMessage"},
+		"the reader takes the branch for any other error: a subscription ends with the wrong status, or a timestamp lookup fails instead of answering from the neighbouring segment")
+	c.Check(n >= 8, "reader sentinels resolved", "", "identity comparisons with end-of-log / not-found sentinels resolved to their producers", "fewer identity comparisons with reader sentinels than on the reference tree")
 }
 
 func checkPositionTable(c *eng.Ctx, fn *ssa.Function, api *types.Package, typ string, tag eng.VM, want map[string]eng.VM) {
